@@ -838,6 +838,17 @@ Proof.
   - assert (rest = []) by (destruct rest; [auto|cbn [map] in E1; rewrite len_cons in E1; pose proof (len_nonneg (map (fun f => mk32 (f_bits f)) rest)); lia]). subst rest. reflexivity.
 Qed.
 
+(* ---------- AppendDuration: int64(d/unit) with Go's wrap, or the float quotient (an oracle of the two integers) ---------- *)
+Theorem AppendDuration_src fo fq dst d unit useInt prec : unit <> 0 ->
+  (useInt = false -> fq (d_ns d) unit = mk64 (f_bits (d_quot d)) /\ (f_bits (d_quot d) < 2 ^ 64)%N /\ fo_agrees fo (d_quot d) prec /\
+                     (4 <= length (f_txt_e (d_quot d)))%nat /\ len_ok (dst ++ f_txt_e (d_quot d))) ->
+  JsonSrc.AppendDuration fo fq dst (d_ns d) unit useInt prec = Ok (JsonEnc.AppendDuration dst d unit useInt prec).
+Proof.
+  intros Hu Hf. unfold JsonSrc.AppendDuration, JsonEnc.AppendDuration. destruct useInt.
+  - replace (unit =? 0) with false by lia. reflexivity.
+  - destruct (Hf eq_refl) as (E & Hb & Ho & H4 & Hl). rewrite E. apply AppendFloat64_src; auto.
+Qed.
+
 (* ---------- summary: every translated function of internal/json refines the model ---------- *)
 Definition strs_ok (vals : list (list N)) : Prop := Forall (fun s => bytes_ok s /\ len_ok s) vals.
 
@@ -878,7 +889,11 @@ Definition json_source_refinement : Prop :=
   (forall fo dst l prec, Forall (f64_ok fo prec) l -> len dst + 1 + ftotal l < 2 ^ 62 ->
      JsonSrc.AppendFloats64 fo dst (map (fun f => mk64 (f_bits f)) l) prec = Ok (JsonEnc.AppendFloats64 dst l prec)) /\
   (forall fo dst l prec, Forall (f32_ok fo prec) l -> len dst + 1 + ftotal l < 2 ^ 62 ->
-     JsonSrc.AppendFloats32 fo dst (map (fun f => mk32 (f_bits f)) l) prec = Ok (JsonEnc.AppendFloats32 dst l prec)).
+     JsonSrc.AppendFloats32 fo dst (map (fun f => mk32 (f_bits f)) l) prec = Ok (JsonEnc.AppendFloats32 dst l prec)) /\
+  (forall fo fq dst d unit useInt prec, unit <> 0 ->
+     (useInt = false -> fq (d_ns d) unit = mk64 (f_bits (d_quot d)) /\ (f_bits (d_quot d) < 2 ^ 64)%N /\ fo_agrees fo (d_quot d) prec /\
+                        (4 <= length (f_txt_e (d_quot d)))%nat /\ len_ok (dst ++ f_txt_e (d_quot d))) ->
+     JsonSrc.AppendDuration fo fq dst (d_ns d) unit useInt prec = Ok (JsonEnc.AppendDuration dst d unit useInt prec)).
 
 Theorem json_source_refines_model : json_source_refinement.
 Proof.
@@ -887,13 +902,13 @@ Proof.
           | apply AppendStrings_src | apply AppendArrayDelim_src | apply AppendBool_src | apply AppendBools_src
           | apply AppendInts_src | apply AppendInts8_src | apply AppendInts16_src | apply AppendInts32_src | apply AppendInts64_src
           | apply AppendUints_src | apply AppendUints8_src | apply AppendUints16_src | apply AppendUints32_src | apply AppendUints64_src
-          | apply AppendTime_src | apply AppendTimes_src | apply AppendFloat64_src | apply AppendFloat32_src | apply AppendFloats64_src | apply AppendFloats32_src | reflexivity ]; auto.
+          | apply AppendTime_src | apply AppendTimes_src | apply AppendFloat64_src | apply AppendFloat32_src | apply AppendFloats64_src | apply AppendFloats32_src | apply AppendDuration_src | reflexivity ]; auto.
 Qed.
 
 (* the functions of internal/json the translator could NOT express stay tied to the code by the
    byte-exact correspondence run only; the list is part of the generated file and fixed here, so a
    function silently leaving the translated set breaks this lemma *)
-Lemma json_skipped_functions : length JsonSrc.skipped_functions = 9%nat /\ length JsonSrc.translated_functions = 46%nat.
+Lemma json_skipped_functions : length JsonSrc.skipped_functions = 7%nat /\ length JsonSrc.translated_functions = 48%nat.
 Proof. split; reflexivity. Qed.
 
 (* what the property needs of the two functions every key and string goes through, stated of the source *)
